@@ -161,6 +161,28 @@ _ADD4 = {
  "C19": "Case variants of the shared names; one real `lace watch` session (verdict and warnings of every re-check against a fresh `lace check`).",
  "C20": "The same editor through the REAL terminal path: keys typed into a pseudo terminal one at a time and in bursts, a 1,203-line history file; Trace_Editor replays the keys blind and compares the history file. NBSP in the alphabet.",
 }
+# fifth round
+_ADD5 = {
+ "C02": "PUTS/PUTSP strings with an ESC and characters behind it (D9 drops the ESC alone).",
+ "C03": "Real binary: input from a pipe while stdout is a pseudo terminal; an object file and its source both run with --minimal (REG, ESC).",
+ "C04": "Literal PC offsets that point at the words just before the image, on statements 1-4.",
+ "C05": "The line counter around 2^15 followed by literal offsets; digit runs beyond u32/u64.",
+ "C06": "Destinations with a second hard link; a FIFO fed in pieces of odd length; images covering xFDFF from origin 0 with and without -f stack.",
+ "C07": "Images running past xFFFF with an out-of-range reference beyond it; byte order mark, NUL and ^Z in sources; the watch session starts on a file that already defines the labels.",
+ "C08": "Fault kinds hardlink / hardlink-fsize / absent-ptygone; mixed-width names long enough for any cut-off.",
+ "C09": "ESC [ 1 m X written one character per OUT with debugger text containing m in between.",
+ "C11": "Labels shaped like registers or literals with an underscore (r1_loop, R7_SAVE, x30_05, b_101).",
+ "C12": "Scenario: breakpoint on the second word revisited after reset / goto.",
+ "C14": "Blank followed by TAB/NBSP before an argument; CmdLang trims the rest of a line like str::trim.",
+ "C15": "Literal PC-relative operands outside the field (to be refused wherever the PC is); directives as eval text.",
+ "C16": "Real terminal: typed lines holding one to four commands, then quit: the process must end.",
+ "C17": "Scenario biggap (labels 33,000 words behind the origin); register/literal-shaped labels.",
+ "C18": "The four mnemonics only after .end; labels named sp/SP/fp; `eval <stack mnemonic>` at the command line (stderr must name the feature, R7 must not move).",
+ "C19": "Sources with other origins and emit-time failures in the sequences; a text that warns and then fails followed by a clean one in the watch session.",
+ "C20": "Typed lines with several `;`; a pseudo terminal with a 40-column window and a line longer than it.",
+}
+for _k, _v in _ADD5.items():
+    _ADD[_k] = (_ADD.get(_k, "") + " " + _v).strip()
 for _k, _v in _ADD4.items():
     _ADD[_k] = (_ADD.get(_k, "") + " " + _v).strip()
 for _k, _v in _ADD.items():
